@@ -214,8 +214,14 @@ def check_calls(case, obs):
                     errs.append(("close", f"removed doer {x} got {ks} before remove returned, expected Cease, Exit"))
                 if opened == 0 and ks:
                     errs.append(("close", f"already finished doer {x} got {ks} on remove"))
-                for k, i, _ in tr[rec["end"]:]:
+                for pos, (k, i, _) in enumerate(tr[rec["end"]:], start=rec["end"]):
+                    if k in ("DoReturn", "DoRaise"):
+                        break               # a later run may list the doer again
                     if i == x and k == "Enter":
+                        # started again: only an extend() naming it can do that
+                        if not any(r2["kind"] == "ext" and x in r2["ids"] and r2["start"] <= pos <= r2.get("end", len(tr))
+                                   for r2 in obs["efflog"]):
+                            errs.append(("zombie", f"removed doer {x} was entered again at event {pos} although nothing added it back"))
                         break
                     if i == x and k == "Recur":
                         errs.append(("zombie", f"removed doer {x} recurred after remove returned"))
